@@ -13,7 +13,7 @@ TAB-EQLOOP: equality loops.  TAB-U8ORD: constants and to_ordering mapping.
 """
 import re
 
-from .. import sym, table
+from .. import facts, sym, table
 from ..sym import show
 from ..table import Row, lt, le, eq, ne, Int
 
@@ -108,6 +108,7 @@ def run(ctx):
             decide_loop(ctx, prog, b, kind, paths, ident)
         u8ord(ctx, prog)
     macro_witnesses(ctx)
+    inference_programs(ctx)
     ctx.floor("TAB-SCALAR", 60)
     ctx.floor("TAB-OPTION", 30)
     ctx.floor("LEX", 15)
@@ -179,6 +180,29 @@ pub fn assertne_w_i32(l: i32, r: i32) { konst::assertc_ne!(l, r) }
 pub fn asserteq_w_char(l: char, r: char) { konst::assertc_eq!(l, r, "with a message") }
 pub fn assertne_w_char(l: char, r: char) { konst::assertc_ne!(l, r, "with a message") }
 '''
+
+
+INFER_PROGS = [
+    ("const_cmp!/typed,untyped", "pub const C: core::cmp::Ordering = konst::const_cmp!(3u32, 5);"),
+    ("const_eq!/typed,untyped", "pub const C: bool = konst::const_eq!(3u8, 5);"),
+    ("const_eq!/str", "pub const C: bool = konst::const_eq!(\"a\", \"b\");"),
+    ("const_cmp!/option", "pub const C: core::cmp::Ordering = konst::const_cmp!(Some(3u8), None);"),
+    ("assertc_eq!/typed,untyped", "pub const C: () = konst::assertc_eq!(3u8, 3);"),
+    ("assertc_ne!/typed,untyped", "pub const C: () = konst::assertc_ne!(3u8, 4);"),
+]
+
+
+def inference_programs(ctx):
+    """(only the documented direction: the right operand's type may be inferred from the left one - `min!(3, 5u32)` is rejected
+    by the pinned tree as well and is not part of the property)
+    ACC-INFER: call shapes in which one operand's type is inferred from the other must keep compiling (coerce_to_cmp! infers
+    both markers from both operands; a slip there rejects valid programs)"""
+    res = facts.compile_many([(n, "#![allow(unused)]\n" + src + "\n") for n, src in INFER_PROGS], ctx.th)
+    for (n, src), r in zip(INFER_PROGS, res):
+        if not r["ok"]:
+            ctx.violation("ACC-INFER", n, "a valid program is rejected: `%s`: %s" % (src, "; ".join(e["message"][:120] for e in r["errors"][:2])), detail={"program": src})
+        ctx.instance("ACC-INFER", n, sample={"program": src, "accepted": r["ok"]})
+    ctx.floor("ACC-INFER", len(INFER_PROGS))
 
 
 def macro_witnesses(ctx):
